@@ -1,4 +1,4 @@
-import IofloModel.Model.Lex
+import IofloModel.Model.LexLoad
 import IofloModel.Drv.Proto
 /-! driver for the FloScript reader model (engine `lex`).
 
@@ -8,6 +8,8 @@ request  `cmds <hex text>`      reply: the token lists `Builder.dispatch` receiv
                                 commands separated by `;`, tokens by `,`, each token hex; `-` = none
 request  `cmdsold <hex text>`   same for `tokenize` as found in the repository
 request  `chunks <hex line>`    reply: `REO_Chunks.findall(line)`, hex chunks separated by `,`
+request  `tree <fix 0|1> <depth> <hex text of the top file> <files>`   files = `-` or `name:text;name:text` (both hex);
+                                reply `<done|ioerror|parseerror|depth> <commands as for cmds>`: the read loop with `load`
 request  `layout <words…>`      a `Layout` (grammar below); reply `<ok 0|1> <spaceLead 0|1> <hex render> <erase as for cmds>`
 
 layout words:  `P` run* ( `C` run run* )*        -- filler runs, then commands (first run = head)
@@ -94,8 +96,25 @@ def parseLayout : List String → Option Layout
     | none => none
   | _ => none
 
+def parseFiles (w : String) : Option (List (Str × Str)) :=
+  if w == "-" then some [] else
+  (w.splitOn ";").mapM (fun e => match e.splitOn ":" with
+    | [n, t] => (match decode? n, (if t == "-" then some [] else decode? t) with
+                 | some n, some t => some (n, t)
+                 | _, _ => none)
+    | _ => none)
+
+def showStop : Stop → String
+  | .done => "done" | .ioError => "ioerror" | .parseError => "parseerror" | .depth => "depth"
+
 def step (_ : Unit) (line : String) : Unit × String :=
   match words line with
+  | ["tree", fix, depth, h, files] =>
+    match depth.toNat?, (if h == "-" then some [] else decode? h), parseFiles files with
+    | some d, some t, some fl =>
+      let r := readTreeG (fix == "1") (filesOf fl) d t
+      ((), showStop r.2 ++ " " ++ encCmds r.1)
+    | _, _, _ => ((), "bad-op")
   | ["cmds", h] =>
     match decode? h with
     | some t => ((), encCmds (commands t))
